@@ -42,7 +42,8 @@ MANIFEST = dict(
          'string and never exhausts the loop bound (termination); a coding is chosen only if enabled locally and declared '
          'with q > 0 by the last header element naming it, also for every response of a history with set_used_compression '
          'after start and for notifications (coding declared by the Subscribe request); Content-Length never accompanies '
-         'Transfer-Encoding in what is sent; request and response paths return the original body for any '
+         'Transfer-Encoding in what is sent; a message whose body cannot be read ends the persistent connection (no byte behind it is '
+         'taken for a further request); request and response paths return the original body for any '
          'codec with dec(enc x) = x; a body in a coding that is not enabled / not registered / rejected by the codec never '
          'yields a result. The model is compared with mk_chunks, _read_dechunk, parse_header, read_request_body, '
          'read_response_body, _send_soap_request and do_POST on generated and exhaustively enumerated inputs.',
@@ -52,7 +53,7 @@ MANIFEST = dict(
          'under correspondence). q-values outside plain decimals (exponent, underscore, inf/nan, non-ASCII) are outside the '
          'model; Accept-Encoding elements with parameters other than q are not judged by the oracle.',
     ref='5 C17')
-DRIVERS = ['drv_c17']
+DRIVERS = ['drv_c17', 'drv_c13']   # drv_c13: the keep-alive loop `serveConn` (RequestFlow) shared with C13
 RULE = ('one case = (body, chunk size) | one byte stream fed to _read_dechunk | one Accept-Encoding header (+ supported list) | '
         'one (headers, wire) pair for read_request_body/read_response_body | one end-to-end exchange (body, client/server '
         'coding configuration, chunk sizes); distinct by canonical JSON; non-trivial = body non-empty / stream non-empty / header '
@@ -968,6 +969,7 @@ def run(ctx):
     run_keepalive(ctx, L, B)
     run_config_histories(ctx, L, B)
     run_notifications(ctx, L, B)
+    run_connection_framing(ctx, L)
     run_end_to_end(ctx, L)
     B.flush()
 
@@ -1008,6 +1010,13 @@ def _run_case(ctx, L, B, case):
                     host.stop()
                 except Exception:  # noqa: BLE001
                     pass
+    elif k == 'connection-framing':
+        comp = EchoComponent()
+        inner = raw_post([('Content-Length', '8')], b'<inner/>')
+        r = WD.call(run_server, L, raw_post([tuple(x) for x in case['headers']], unhx(case['prefix']) + inner), list(L.CH.available_encodings),
+                    case.get('chunk', 0), comp)
+        if r[0] != 'ok' or comp.received or len(parse_responses(r[1])) != 1:
+            ctx.fail('framing:request-behind-invalid-framing-executed', f'{r[0]}, component received {len(comp.received)} bodies', case)
     elif k == 'send':
         xml = unhx(case['xml'])
         if case.get('async'):
@@ -1417,6 +1426,41 @@ def run_notifications(ctx, L, B):
         prov.stop(send_end=False)
 
 
+# ------------------------------------------------------------------------------------------------ framing on a persistent connection
+def run_connection_framing(ctx, L):
+    """the peer reads exactly the message: a request whose body cannot be read (invalid / negative / empty Content-Length and a coded
+    body without length are detected BEFORE a body byte is consumed) must end the connection - the bytes behind it, here a complete
+    valid request, are not a further request. Real handler, real reader; plus the injected version shared with C13 (serveConn)."""
+    inner_body = b'<inner-request/>'
+    inner = raw_post([('Content-Type', 'application/soap+xml'), ('Content-Length', str(len(inner_body)))], inner_body)
+    outers = [([('Content-Length', v)], b'') for v in ('abc', '-5', '-1', '', '1e3', '5, 6', '0x10', '1.0', '--1', 'NaN')]
+    outers += [([('Content-Encoding', 'gzip')], b''), ([('Content-Encoding', 'x-lz4')], b''),
+               ([('Content-Encoding', 'br'), ('Content-Length', '0')], b''),
+               ([('Transfer-Encoding', 'chunked')], b'zz\r\n'), ([('Transfer-Encoding', 'chunked')], b'-1\r\n'),
+               ([('Transfer-Encoding', 'chunked')], b'5;x\r\nab'), ([('Transfer-Encoding', 'chunked')], b'\r\n')]
+    for hdrs, prefix in outers:
+        for chunk in (0, 7):
+            comp = EchoComponent()
+            raw = raw_post(hdrs, prefix + inner)
+            case = {'kind': 'connection-framing', 'headers': [list(x) for x in hdrs], 'prefix': hx(prefix), 'chunk': chunk}
+            r = WD.call(run_server, L, raw, list(L.CH.available_encodings), chunk, comp)
+            ctx.case({'k': 'connframing', **case}, nontrivial=True)
+            if r[0] != 'ok':
+                ctx.fail('do_POST:' + ('hang' if r[0] == 'hang' else 'exception'), f'{hdrs}: {r!r:.160}', case)
+                continue
+            resps = parse_responses(r[1])
+            codes = [x[0] if x else None for x in resps]
+            ctx.count('connection-framing:' + '+'.join(map(str, codes)))
+            if comp.received or len(resps) != 1 or (resps[0] is not None and resps[0][0] == 200):
+                ctx.fail('framing:request-behind-invalid-framing-executed', f'request with {hdrs} (unreadable body) followed by the bytes of a '
+                         f'complete request: answers {codes}, component received {[len(x) if x is not None else None for x in comp.received]} - '
+                         'the unread bytes were taken for a further request', case)
+    from props import c13
+    B13 = c13.Batch(ctx)
+    c13.injection_conn(ctx, L, B13, c13.exception_classes())
+    B13.flush()
+
+
 # ------------------------------------------------------------------------------------------------ configuration histories
 class ConfigHost:
     """a running http server of the library together with the public way to change the enabled codings"""
@@ -1760,6 +1804,8 @@ def search(ctx):
             run_config_histories(ctx, L, B)
         if not ctx.failures:
             run_notifications(ctx, L, B)
+        if not ctx.failures:
+            run_connection_framing(ctx, L)
         if not ctx.failures:
             run_end_to_end(ctx, L)
         if not ctx.failures:
